@@ -10,10 +10,16 @@ Nothing in here decides a property; verdicts come from TLC (spec/TaskGraphTrace.
 """
 import copy
 import itertools
+import pickle
 
 from . import common
 
 SORT_KEYS = ["prio", "id"]          # key index 1 -> "prio", 2 -> "id"
+
+
+def default_prio(n):
+    """sort attribute with ties (1, 0, 1, 2, 0, 1, ...): tasks 1 and 3 compare equal"""
+    return [(1, 0, 1, 2, 0, 2, 1, 0)[i % 8] for i in range(n)]
 
 
 class Universe:
@@ -22,15 +28,42 @@ class Universe:
         self.ids = list(ids)
         self.n = len(ids)
         self.w = nw
-        prio = prio or [((i * 2) % 3) for i in range(self.n)]
+        prio = prio or default_prio(self.n)
         self.prio = list(prio)
         self.tasks = [pj.Task(ids[i], name="t%d" % (i + 1), prio=prio[i]) for i in range(self.n)]
         self.wbs = [pj.WBS() for _ in range(nw)]
+        # long-lived list handles grabbed before any mutation; calls with via=1 go through them
+        self.handles = [t.children for t in self.tasks] + [w.roots for w in self.wbs]
         self.extra_wbs = []     # WBS objects created by clone/subtree (numbered W+1, ...)
         self.extra_tasks = []   # task objects created by clone/subtree (numbered N+W+1...)
 
     def clone(self):
-        return copy.deepcopy(self)
+        return pickle.loads(pickle.dumps(self))
+
+    # List facades cannot be copied or pickled (their __getattr__ answers every name).  A handle is saved
+    # as "alias of the node's current list" or as the stale content it still holds, and rebuilt on load.
+    def __getstate__(self):
+        st = dict(self.__dict__)
+        saved = []
+        for n, h in enumerate(self.handles, start=1):
+            cur = self.wbs_of(n)._root()._Task__children if self.is_root(n) else self.task(n)._Task__children
+            if h._list is cur:
+                saved.append(None)
+            else:
+                ti = self.tidx()
+                saved.append([ti.get(id(x), 0) for x in h._list])
+        st["handles"] = saved
+        return st
+
+    def __setstate__(self, st):
+        saved = st.pop("handles")
+        self.__dict__.update(st)
+        self.handles = []
+        for n, sv in enumerate(saved, start=1):
+            h = self.wbs_of(n).roots if self.is_root(n) else self.task(n).children
+            if sv is not None:
+                h._list = [self.task(i) for i in sv if i]
+            self.handles.append(h)
 
     # -- addressing --------------------------------------------------------------------------
     def task(self, t):
@@ -42,8 +75,16 @@ class Universe:
     def wbs_of(self, n):
         return self.wbs[n - self.n - 1]
 
-    def childlist(self, n):
+    def childlist(self, n, via=0):
+        if via:
+            return self.handles[n - 1]
         return self.wbs_of(n).roots if self.is_root(n) else self.task(n).children
+
+    def listobj(self, m, kind):
+        """a live task-list object of the API: kind 1 children/roots of node m, 2 predecessors, 3 successors"""
+        if kind == 1:
+            return self.childlist(m)
+        return self.task(m).predecessors if kind == 2 else self.task(m).successors
 
     def set_childlist(self, n, seq):
         if self.is_root(n):
@@ -82,6 +123,8 @@ def project(U: Universe, attrs=True, obs=True):
     suc = [[tix(c) for c in t.successors] for t in U.tasks]
     own = [0 if t.wbs is None else wi.get(id(t.wbs), U.w + 1) for t in U.tasks]
     g = {"par": par, "ch": ch, "pre": pre, "suc": suc, "own": own}
+    # what the long-lived list handles show (hidden state of the binding: part of the state key only)
+    g["hv"] = [[tix(c) for c in h] for h in U.handles]
     if attrs:
         g["attr"] = [[_attr_code(t, "prio"), _attr_code(t, "tag")] for t in U.tasks]
     if obs:
@@ -114,15 +157,15 @@ def _attr_code(t, name):
 
 
 def state_key(g):
-    return repr((g["par"], g["ch"], g["pre"], g["suc"], g["own"], g.get("attr")))
+    return repr((g["par"], g["ch"], g["pre"], g["suc"], g["own"], g.get("attr"), g.get("hv")))
 
 
 # ---------------------------------------------------------------------------------------------
 # actions
 # ---------------------------------------------------------------------------------------------
-def act(name, n=0, t=0, i=0, seq=(), before=0, after=0, key=0, rev=0):
+def act(name, n=0, t=0, i=0, seq=(), before=0, after=0, key=0, rev=0, via=0):
     return {"name": name, "n": n, "t": t, "i": i, "seq": list(seq), "before": before, "after": after,
-            "key": key, "rev": rev}
+            "key": key, "rev": rev, "via": via}
 
 
 def _one_or_list(U, seq):
@@ -147,6 +190,7 @@ def apply(U: Universe, a):
 def _dispatch(U, name, a):
     T = U.task
     n, t, seq = a["n"], a["t"], a["seq"]
+    via = a.get("via", 0)
     if name == "SetParent":
         T(t).parent = None if n == 0 else T(n)
         return None
@@ -156,14 +200,23 @@ def _dispatch(U, name, a):
     if name == "SetChildrenOne":       # bare task instead of a list
         U.set_childlist(n, T(t))
         return None
+    if name == "SetChildrenFrom":      # n.children = <live list object of the API>
+        U.set_childlist(n, U.listobj(t, a["key"]))
+        return None
+    if name == "SetPredsFrom":
+        T(n).predecessors = U.listobj(t, a["key"])
+        return None
+    if name == "SetSuccsFrom":
+        T(n).successors = U.listobj(t, a["key"])
+        return None
     if name == "ChAppend":
-        U.childlist(n).append(T(t))
+        U.childlist(n, via).append(T(t))
         return None
     if name == "ChInsert":
-        U.childlist(n).insert(a["i"], T(t))
+        U.childlist(n, via).insert(a["i"], T(t))
         return None
     if name == "ChRemove":
-        return _b(U.childlist(n).remove(T(t)))
+        return _b(U.childlist(n, via).remove(T(t)))
     if name == "ChMove":
         kw = {}
         if a["before"]:
@@ -171,13 +224,13 @@ def _dispatch(U, name, a):
         if a["after"]:
             kw["after"] = T(a["after"])
         ts = [T(x) for x in seq]
-        U.childlist(n).move(ts[0] if len(ts) == 1 else ts, **kw)
+        U.childlist(n, via).move(ts[0] if len(ts) == 1 else ts, **kw)
         return None
     if name == "ChSort":
-        U.childlist(n).sort(SORT_KEYS[a["key"] - 1], reverse=bool(a["rev"]))
+        U.childlist(n, via).sort(SORT_KEYS[a["key"] - 1], reverse=bool(a["rev"]))
         return None
     if name == "ChReorder":
-        U.childlist(n).reorder(list(seq))      # seq holds ids here
+        U.childlist(n, via).reorder(list(seq))      # seq holds ids here
         return None
     if name == "SetPreds":
         T(t).predecessors = [T(x) for x in seq]
@@ -227,7 +280,8 @@ def _b(x):
     return 1 if x is True else (0 if x is False else 2)
 
 
-LIST_FACADE = {"ChMove", "ChSort", "ChReorder", "ChRemove", "ListLShift", "ListRShift"}
+LIST_FACADE = {"ChMove", "ChSort", "ChReorder", "ChRemove", "ListLShift", "ListRShift", "SetPredsFrom",
+               "SetSuccsFrom"}
 
 
 def pruned(pre, a, N):
@@ -306,4 +360,25 @@ def alphabet(N, W, L=2, ids=None, level=2, light=False):
                 A.append(act("ListRShift", n=n, seq=s))
             for t in tasks:
                 A.append(act("SetChildrenOne", n=n, t=t))
+        # live list objects of the API as arguments (a.children = b.children, a.children = a.children, ...)
+        for n in nodes:
+            for m in nodes:
+                A.append(act("SetChildrenFrom", n=n, t=m, key=1))
+            for m in tasks:
+                A.append(act("SetChildrenFrom", n=n, t=m, key=2))
+        for n in tasks:
+            for m in nodes:
+                A.append(act("SetPredsFrom", n=n, t=m, key=1))
+            for m in tasks:
+                A.append(act("SetPredsFrom", n=n, t=m, key=2))
+                A.append(act("SetSuccsFrom", n=n, t=m, key=3))
+                A.append(act("SetSuccsFrom", n=n, t=m, key=2))
+        # the same facade calls through long-lived handles
+        for n in nodes:
+            for t in tasks:
+                A.append(act("ChAppend", n=n, t=t, via=1))
+                A.append(act("ChRemove", n=n, t=t, via=1))
+                A.append(act("ChInsert", n=n, t=t, i=0, via=1))
+                A.append(act("ChMove", n=n, seq=[t], before=t % N + 1, via=1))
+            A.append(act("ChSort", n=n, key=1, rev=0, via=1))
     return A
